@@ -1,5 +1,5 @@
 (* C18/Witness.v — non-vacuity of the hypotheses used in Properties.v and concrete evaluations. *)
-From Verif Require Import Common.Base Generated.MemLimiter18 C18.Model C18.Proofs C18.ProofsSys C18.ProofsFine C18.ProofsTotal.
+From Verif Require Import Common.Base Generated.MemLimiter18 C18.Model C18.Proofs C18.ProofsSys C18.ProofsFine C18.ProofsTotal C18.Harness C18.Clauses.
 From Coq Require Import String.
 Local Open Scope Z_scope.
 
@@ -211,3 +211,23 @@ Qed.
 Example ex_pct_on_cgroup :
   option_map (fun l => (l_limit l, l_spike l)) (new_limiter cfg_pct (total_memory env_v2)) = Some (1073741824, 214748364).
 Proof. vm_compute. reflexivity. Qed.
+
+(* the clause checkers: satisfied by a correct observation, and each code fires on a wrong one *)
+Example ex_clauses_ok :
+  violations (CRun cfg_fixed None [(5000000000, 83886080, 0); (11000000000, 83886080, 1000)]
+                   [(true, 0%nat, false, [5%nat]); (false, 1%nat, true, [3; 0; 4]%nat)]) = [] /\
+  violations (CLife [true; false; true] [(false, 1, true, true); (false, 0, false, false); (false, 1, true, true)]) = [].
+Proof. vm_compute. split; reflexivity. Qed.
+
+Example ex_clauses_violated :
+  (* not refusing at the soft limit; a GC although the soft interval has not elapsed; a dead checker after a restart;
+     a payload forwarded while refusing *)
+  violations (CRun cfg_fixed None [(5000000000, 83886080, 0)] [(false, 0%nat, false, [])]) = [1%nat] /\
+  violations (CRun cfg_fixed None [(5000000000, 83886080, 0)] [(false, 1%nat, true, [])]) = [2%nat] /\
+  violations (CLife [true; false; true] [(false, 1, true, true); (false, 0, false, false); (false, 1, true, false)]) = [13%nat] /\
+  violations (CGate cfg_fixed None [GCheck (mkTick 1 1 83886080 0); GConsume 0 1 None]
+                    [OChecked true 0; OConsumed None [(0%nat, 1)]]) = [6; 7]%nat.
+Proof. vm_compute. repeat split; reflexivity. Qed.
+
+Example ex_before_first_check : checks_of [GConsume 0 1 None; GExtMustRefuse; GConsume 3 2 (Some 4)] = [].
+Proof. reflexivity. Qed.
